@@ -277,6 +277,7 @@ class SymEval:
         self.rd = cfg.reaching()
         self.self_name = self_name
         self.resolve_global = resolve_global  # name -> dotted string or None
+        self.signature_of = None  # callee term -> parameter names (bound receiver excluded) or None; set by the owner (FA)
         self.max_depth = max_depth
         self._all_defs: Dict[str, Set[int]] = {}
         for n in cfg.nodes:
@@ -453,6 +454,18 @@ class SymEval:
                 else:
                     args.append(T(a))
             kws = tuple(sorted(((k.arg or "**", T(k.value)) for k in e.keywords), key=lambda x: x[0]))
+            # one spelling for arguments of package callees with a known plain signature: keywords that bind the next parameters
+            # in order are written positionally (f(a, item=b) and f(a, b) are the same call)
+            if kws and self.signature_of is not None and not any(k_ == "**" for k_, _ in kws) and not any(
+                    isinstance(a_, tuple) and a_ and a_[0] == "star" for a_ in args):
+                sig_ = self.signature_of(f)
+                if sig_ is not None:
+                    kwd_ = dict(kws)
+                    i_ = len(args)
+                    while i_ < len(sig_) and sig_[i_] in kwd_:
+                        args.append(kwd_.pop(sig_[i_]))
+                        i_ += 1
+                    kws = tuple(sorted(kwd_.items(), key=lambda x: x[0]))
             if _is_draw(f):
                 # a random draw is not a function of its arguments: two call sites never denote the same value
                 kws = kws + (("#site", ("const", (getattr(e, "lineno", 0), getattr(e, "col_offset", 0)))),)
